@@ -237,7 +237,7 @@ fn maybe_format(input: &str) -> Option<(LeftToParse<'_>, MaybeFormat<'_>)> {
 ///
 /// # Grammar
 ///
-/// [`format`]` := '{' [`[`argument`]`] [':' `[`format_spec`]`] '}'`
+/// [`format`]` := '{' [`[`argument`]`] [':' `[`format_spec`]`] [ws]* '}'`
 ///
 /// # Example
 ///
@@ -260,9 +260,20 @@ pub(crate) fn format(input: &str) -> Option<(LeftToParse<'_>, Format<'_>)> {
         map(format_spec, |(i, s)| (i, Some(s))),
     )(input)?;
 
-    let input = char('}')(input)?;
+    let input = end_of_format(input)?;
 
     Some((input, Format { arg, spec }))
+}
+
+/// Parses the end of a [`format`]: optional whitespaces followed by the closing brace.
+///
+/// # Grammar
+///
+/// `[ws]* '}'`
+fn end_of_format(input: &str) -> Option<LeftToParse<'_>> {
+    let (input, _) = take_while0(check_char(char::is_whitespace))(input);
+
+    char('}')(input)
 }
 
 /// Parses an `argument` as defined in the [grammar spec][0].
@@ -452,7 +463,7 @@ fn type_(input: &str) -> Option<(&str, Type)> {
         &mut map(char('b'), |i| (i, Type::Binary)),
         &mut map(char('e'), |i| (i, Type::LowerExp)),
         &mut map(char('E'), |i| (i, Type::UpperExp)),
-        &mut map(lookahead(char('}')), |i| (i, Type::Display)),
+        &mut map(lookahead(end_of_format), |i| (i, Type::Display)),
     ])(input)
 }
 
